@@ -13,7 +13,7 @@ TRUSTED = [
     "measurement: the harness (no script installed, so the crate's real sockets are used) runs the real valve / quake / minecraft-java queries and raw exchanges through the crate-private sockets against an in-process loopback server thread (IPv4 and IPv6) and reports result, bytes seen by the server and wall-clock time; the model runs the same query on the equivalent script and yields the number of receives that wait for a full timeout",
     "write timeouts are applied but not exercised (a loopback peer never blocks a small write); scheduling slack 600 ms",
 ]
-RULE = ("UDP (valve, quake 3) and TCP (minecraft java) queries x IPv4 / IPv6 loopback x server silent from the start / after the first reply / refusing / closing x read timeout 150 / 300 ms (write timeout different from read) x retries 0..2; "
+RULE = ("HTTP (Eco through ureq) against a web server that is silent / stalls inside the head / stalls inside the body / refuses / closes, with explicit settings and with none (4 s defaults), TCP connects to a peer that drops the SYN (full accept queue) with connect timeouts of 250-1500 ms; UDP (valve, quake 3) and TCP (minecraft java) queries x IPv4 / IPv6 loopback x server silent from the start / after the first reply / refusing / closing x read timeout 150 / 300 ms (write timeout different from read) x retries 0..2; "
         "raw exchanges through UdpSocket / TcpSocket with payloads of 0, 1, 1024, 1025, 6144, 65487, 65488, 65507 bytes and requested sizes None / 65535; "
         "bounds: elapsed within [k*read - 60 ms, k*read + 600 ms] where k is the model's number of timed-out receives; non-trivial = k > 0 or payload > 1024; distinct by case bytes")
 
@@ -50,6 +50,28 @@ def gen_cases(tier, rng):
                     specs.append(("quake-ok", 1, v6, ts, [QUAKE], 0, b"", None))
                     specs.append(("java-refused", 2, v6, ts, [], 2, b"", None))
                     specs.append(("java-closed", 2, v6, ts, [], 1, b"", None))
+        # a peer that drops the SYN (listener with a full accept queue): the connect timeout, sub-second and whole seconds
+        for conn in ((400, 1000) if tier == "quick" else (250, 400, 1000, 1500)):
+            ts = {"connect": ms(conn), "read": ms(300), "write": ms(300), "retries": 0}
+            specs.append(("java-syn-dropped", 2, v6, ts, [], 4, b"", None))
+            specs.append(("http-syn-dropped", 5, v6, ts, [], 4, b"", None))
+        # HTTP (Eco): the web server accepts and stays silent, stalls inside the response head, refuses, closes
+        for read in reads:
+            ts = {"connect": ms(1000), "read": ms(read), "write": ms(read * 5 + 700), "retries": 0}
+            specs.append(("http-silent", 5, v6, ts, [], 0, b"", None))
+            specs.append(("http-head-stall", 5, v6, ts, [b"HTTP/1.1 200 OK\r\nContent-Type: application/json\r\nContent-"], 0, b"", None))
+            specs.append(("http-body-stall", 5, v6, ts, [b"HTTP/1.1 200 OK\r\nContent-Type: application/json\r\nContent-Length: 500\r\n\r\n{\"Info\":"], 0, b"", None))
+        # ... and with a read timeout well above the slack, so that a second full wait shows
+        ts = {"connect": ms(1000), "read": ms(1000), "write": ms(1000), "retries": 0}
+        specs.append(("http-body-stall", 5, v6, ts, [b"HTTP/1.1 200 OK\r\nContent-Type: application/json\r\nContent-Length: 500\r\n\r\n{\"Info\":"], 0, b"", None))
+        specs.append(("http-head-stall", 5, v6, ts, [b"HTTP/1.1 200 OK\r\nContent-Type: application/json\r\nContent-"], 0, b"", None))
+        ts = {"connect": ms(1000), "read": ms(300), "write": ms(300), "retries": 0}
+        specs.append(("http-refused", 5, v6, ts, [], 2, b"", None))
+        specs.append(("http-closed", 5, v6, ts, [], 1, b"", None))
+        if not v6:
+            # no settings at all: the defaults (4 s) must still bound the query
+            specs.append(("http-silent-default-settings", 5, v6, None, [], 0, b"", None))
+            specs.append(("java-silent-default-settings", 2, v6, None, [], 0, b"", None))
         ts = {"connect": ms(1000), "read": ms(400), "write": ms(400), "retries": 0}
         r = rng.fork("payload/%s" % v6)
         for n in (0, 1, 1024, 1025, 6144, 65487, 65488, 65507):
@@ -63,8 +85,10 @@ def gen_cases(tier, rng):
     bounds = run_model([real_case(112, *s[1:]) for s in specs])
     for i, (s, b) in enumerate(zip(specs, bounds)):
         k = int(b.split("=", 1)[1]) if b.startswith("timeouts=") else None
-        read = s[3]["read"][0] * 1000 + s[3]["read"][1] // 1000000
-        meta = {"stream": s[0], "timeouts": k, "read_ms": read, "payload": len(s[6])}
+        tsd = s[3] if s[3] is not None else {"connect": ms(4000), "read": ms(4000)}
+        read = tsd["read"][0] * 1000 + tsd["read"][1] // 1000000
+        conn = tsd["connect"][0] * 1000 + tsd["connect"][1] // 1000000
+        meta = {"stream": s[0], "timeouts": k, "read_ms": read, "payload": len(s[6]), "connect_wait_ms": conn if s[5] == 4 else 0}
         if s[0].startswith("udp-echo"):
             got = s[6][:(s[7] if s[7] is not None else 1024)]
             meta["delivered"] = "Ok(len=%d,sum=%d)|len=%d,sum=%d" % (len(got), sum(got) % 4294967296, len(s[6]), sum(s[6]) % 4294967296)
@@ -87,13 +111,13 @@ def oracle(case, impl, side):
     e = re.search(r"elapsed=(\d+);", side)
     if not e or m["timeouts"] is None:
         return ("no-measurement", "no elapsed time reported: " + side[:100])
-    elapsed, k, read = int(e.group(1)), m["timeouts"], m["read_ms"]
-    if elapsed > k * read + 600:
-        return ("too-slow:" + m["stream"], "%s took %d ms; %d receive(s) may wait for the %d ms read timeout each (+600 ms slack): %s" % (case["id"], elapsed, k, read, impl[:160]))
-    if elapsed + 60 < k * read:
-        return ("too-fast:" + m["stream"], "%s took %d ms although %d receive(s) should each wait %d ms: %s" % (case["id"], elapsed, k, read, impl[:160]))
+    elapsed, k, read, cw = int(e.group(1)), m["timeouts"], m["read_ms"], m.get("connect_wait_ms", 0)
+    if elapsed > k * read + cw + 600:
+        return ("too-slow:" + m["stream"], "%s took %d ms; %d receive(s) may wait for the %d ms read timeout each and the connect for %d ms (+600 ms slack): %s" % (case["id"], elapsed, k, read, cw, impl[:160]))
+    if elapsed + 60 < k * read + cw:
+        return ("too-fast:" + m["stream"], "%s took %d ms although %d receive(s) should each wait %d ms and the connect %d ms: %s" % (case["id"], elapsed, k, read, cw, impl[:160]))
     return None
 
 
 def nontrivial(case, model):
-    return (case["meta"]["timeouts"] or 0) > 0 or case["meta"]["payload"] > 1024
+    return (case["meta"]["timeouts"] or 0) > 0 or case["meta"]["payload"] > 1024 or case["meta"].get("connect_wait_ms", 0) > 0
